@@ -14,7 +14,7 @@ RULE = ('pairs (file tree, runtime tree) over a 5-name space incl. look-alikes, 
         'non-trivial = distinct cases in which the append returned normally and the file changed')
 MODELLED = ['payload templates with content tokens', 'group paths as lists of names (the source computes them as strings; look-alike paths are generated on purpose)']
 ASSUMPTIONS = ['valid, sibling-distinct names; runtime trees well formed (C12)']
-NAMES = ['a', 'b', 'c', 'ab', 'd', '_tmp_a']      # '_tmp_a': the scratch name the replace step of append-over uses for a node called 'a'
+NAMES = ['a', 'b', 'c', 'ab', 'd', '_tmp_a', 'r', 'rr']      # 'r', 'rr': nodes spelled with the letters of the root's name;      # '_tmp_a': the scratch name the replace step of append-over uses for a node called 'a'
 
 
 def small_tree(rng, rootname, n, md=True):
@@ -99,6 +99,24 @@ def cases(seed, tier):
                       'emdpath': '/'.join(['r'] + list(ep))})
         steps.append({'op': 'read', 'file': 0, 'tree': True, 'emdpath': 'r'})
         out.append({'tops': [ft, rt], 'steps': steps, 'kind': 'P'})
+    # a user node called like the scratch name of its sibling ('_tmp_a' beside 'a') under append-over: refused without damage, or
+    # carried out correctly -- never a lost node or a scratch group left behind
+    for i in range(max(6, n // 40)):
+        order = [nd('a', [nd('x')], cls=rng.choice(['Node', 'Array'])), nd('_tmp_a', [nd('kid')] if rng.random() < 0.5 else [], cls=rng.choice(['Node', 'Array'])), nd('b')]
+        if i % 2:
+            order[0], order[1] = order[1], order[0]
+        ft = {'cls': 'Root', 'name': 'r', 'tok': 0, 'rank': 0, 'mds': [], 'kids': order}
+        rt = copy.deepcopy(ft)
+        for p_ in T.all_paths(rt):
+            s_ = T.spec_at(rt, p_)
+            if s_['cls'] not in ('Node', 'Root'):
+                s_['tok'] = T.fresh_tok()
+        tp = rng.choice([[], ['a'], ['_tmp_a']])
+        st = {'op': 'save', 'file': 0, 'top': 1, 'tp': tp, 'mode': rng.choice(modes_ao), 'tree': rng.choice([True, False, None]) if tp else rng.choice([True, None])}
+        if rng.random() < 0.3:
+            st['emdpath'] = 'r' if not tp else '/'.join(['r'] + tp)
+        out.append({'tops': [ft, rt], 'steps': [{'op': 'save', 'file': 0, 'top': 0, 'tp': [], 'mode': 'w', 'tree': True}, st,
+                                                {'op': 'read', 'file': 0, 'tree': True, 'emdpath': 'r'}], 'kind': 'S'})
     # an inner node together with an emdpath that names a file node downstream of it (the data moves to the target), a target the
     # runtime tree lacks, or a target that is not downstream at all -- both modes, every tree flag
     for i in range(n // 8):
